@@ -314,6 +314,30 @@ class Analysis:
                             pass
                     if cache[c["def"]] is not None:
                         return cache[c["def"]]
+            # a crate-local `const` with generic arguments (an associated const such as `Self::LEN`): the value its body computes at these arguments
+            if c.get("args") and c.get("promoted") is None and (is_int_ty(ty) or (ty.get("k") == "prim" and ty["n"] == "bool")) and self.db is not None:
+                cb = self.db.by_path.get(c["def"])
+                if cb is not None and cb.get("kind") in ("Const", "AssocConst"):
+                    cache = self.db.__dict__.setdefault("_const_cache_g", {})
+                    ck = (c["def"], tuple(tstr(a) for a in c["args"]))
+                    if ck not in cache:
+                        cache[ck] = None
+                        try:
+                            from .mirxf import subst_types, generic_mapping
+                            mp = generic_mapping(cb, [a for a in c["args"] if a.get("k") != "region"])
+                            if mp is not None:
+                                cb2 = dict(cb)
+                                cb2["mir"] = subst_types(cb["mir"], mp)
+                                sub = Analysis(self.db, cb2, self.models).run()
+                                vals = {repr(r["val"]): r["val"] for r in sub.returns}
+                                if len(vals) == 1:
+                                    v = next(iter(vals.values()))
+                                    if v[0] in ("I", "B"):
+                                        cache[ck] = v
+                        except Exception:
+                            pass
+                    if cache[ck] is not None:
+                        return cache[ck]
             return ("V", "const", c["def"], tuple(tstr(a) for a in c["args"]))
         if k == "cparam":
             return ("I", Poly.atom(("C", c["n"])))
@@ -769,6 +793,22 @@ class Analysis:
                 cs.no_effects = True
                 idx = (p[3] - Poly.const(1)) if "last" in fn else Poly.const(0)
                 return ("O", ("P", p[1], p[2] + idx * te.size(targs[0]), None), ("get", cs.bb, Poly.const(0), p[3]))
+        if fn in ("core::slice::<impl [T]>::split_first_mut", "core::slice::<impl [T]>::split_first", "core::slice::<impl [T]>::split_last_mut", "core::slice::<impl [T]>::split_last") and len(args) == 1 and targs:
+            # Some((&s[0], &s[1..])) / Some((&s[len-1], &s[..len-1])) exactly when the slice is not empty
+            p = ptr()
+            if p and p[3] is not None:
+                cs.no_effects = True
+                S_ = te.size(targs[0])
+                if "first" in fn:
+                    one, rest = ("P", p[1], p[2], None), ("P", p[1], p[2] + S_, p[3] - Poly.const(1))
+                else:
+                    one, rest = ("P", p[1], p[2] + (p[3] - Poly.const(1)) * S_, None), ("P", p[1], p[2], p[3] - Poly.const(1))
+                return ("O", ("A", "tuple", (one, rest)), ("get", cs.bb, Poly.const(0), p[3]))
+        if fn == "core::mem::take" and len(args) == 1 and args[0][0] == "P" and not args[0][2].t and targs and targs[0].get("k") == "ref" and targs[0]["t"].get("k") == "slice":
+            # mem::take of a slice reference: hands out the slice, leaves an empty one (the effect is applied in apply_call_effects)
+            p = args[0]
+            base, path = (p[1][1], p[1][2]) if p[1][0] == "field" else (p[1], ())
+            return self.read_cell(st, base, path, targs[0])
         if fn in ("core::slice::IterMut::<'a, T>::into_slice", "core::slice::Iter::<'a, T>::as_slice", "core::slice::IterMut::<'a, T>::as_slice") and args \
                 and isinstance(args[0], tuple) and len(args[0]) == 5 and args[0][:3] == ("V", "iter", "slice") \
                 and not any(t_["term"]["k"] == "call" and t_["term"]["f"].get("k") == "fn" and t_["term"]["f"]["def"] in (
@@ -1088,6 +1128,24 @@ class Analysis:
             if p[0] == "P" and not p[2].t:
                 self.write_cell(st, p[1], (), cs.args[1])
                 return
+        if fn in ("core::ops::AddAssign::add_assign", "core::ops::SubAssign::sub_assign") and len(cs.args) == 2 and cs.args[0][0] == "P" and not cs.args[0][2].t \
+                and cs.args[1][0] == "I" and cs.targs and all(t.get("k") == "prim" and is_int_ty(t) for t in cs.targs[:2]):
+            # `AddAssign::add_assign(&mut x, v)` on primitive integers is `x += v` (overflow-checked like the operator): the store, recorded
+            p = cs.args[0]
+            base, path = (p[1][1], p[1][2]) if p[1][0] == "field" else (p[1], ())
+            old = self.read_cell(st, base, path, cs.targs[0])
+            if old[0] == "I":
+                nv = ("I", old[1] + cs.args[1][1] if fn.endswith("add_assign") else old[1] - cs.args[1][1])
+                self.write_cell(st, base, path, nv)
+                if self._rec:
+                    rec = {"site": (site[0], 10 ** 6), "cell": (base, path), "val": nv, "facts": st.facts, "at": cs.at, "rv": {"k": "use"}, "lhs": None}
+                    (self.stores if base[0] != "local" else self.assigns).append(rec)
+                return
+        if fn == "core::mem::take" and len(cs.args) == 1 and cs.args[0][0] == "P" and not cs.args[0][2].t and cs.targs and cs.targs[0].get("k") == "ref" and cs.targs[0]["t"].get("k") == "slice" and cs.modelled:
+            p = cs.args[0]
+            base, path = (p[1][1], p[1][2]) if p[1][0] == "field" else (p[1], ())
+            self.write_cell(st, base, path, ("P", ("constobj", ("empty", site[0])), Poly.const(0), Poly.const(0)))
+            return
         if fn == "core::mem::replace" and len(cs.args) == 2 and cs.args[0][0] == "P" and not cs.args[0][2].t:
             # `mem::replace(&mut x, v)` is `let old = x; x = v; old`: the store, recorded like an assignment through the reference
             p = cs.args[0]
@@ -1360,6 +1418,46 @@ class Analysis:
                 continue
             patom = m[0]
             extra |= self._phi_facts(patom, va[1], a.facts, vb[1], b.facts)
+        # a slice pointer merged with itself moved along (a loop that peels elements off a slice: `rest = &mut rest[1..]`, split_first_mut ..):
+        # if on both edges  offset + size * length  is the same quantity E - on the back edge under the hypothesis that it was E at the head -
+        # the merged pointer keeps  off(phi) + size * len(phi) == E  (its end stays put while its start advances)
+        for k in mem:
+            v = mem[k]
+            va, vb = a.mem.get(k), b.mem.get(k)
+            if va is None or vb is None or va == vb or v[0] != "P" or va[0] != "P" or vb[0] != "P" or va[1] != vb[1] or v[1] != va[1]:
+                continue
+            if va[3] is None or vb[3] is None or v[3] is None:
+                continue
+            po, pl = v[2], v[3]
+            if not (len(po.t) == 1 and len(pl.t) == 1):
+                continue
+            oa = [x for x in po.atoms() if isinstance(x, tuple) and x[0] == "off" and x[1][:2] == ("phi", bb)]
+            la = [x for x in pl.atoms() if isinstance(x, tuple) and x[0] == "len" and x[1][:2] == ("phi", bb)]
+            if len(oa) != 1 or len(la) != 1:
+                continue
+            for first, other, ffirst, fother in ((va, vb, a.facts, b.facts), (vb, va, b.facts, a.facts)):
+                # `other` is the moved-along copy: expressed through the phi atoms; element size from its step
+                d_off, d_len = other[2] - po, other[3] - pl
+                if not (d_len.is_const() and d_len.const_value() != 0):
+                    continue
+                # d_off = -size * d_len
+                if d_len.const_value() == -1:
+                    size = d_off
+                elif d_len.const_value() == 1:
+                    size = -d_off
+                else:
+                    continue
+                if oa[0] in size.atoms() or la[0] in size.atoms():
+                    continue
+                E = first[2] + size * first[3]
+                if oa[0] in E.atoms() or la[0] in E.atoms():
+                    continue
+                inv = norm_fact(("==", po + size * pl - E))
+                hyp = self.poly_facts(fother) + [inv]
+                if prove(("==", other[2] + size * other[3] - E), hyp, 200):
+                    extra.add(("poly",) + inv)
+                    # and the start never runs past the end: len(phi) >= 0 is implicit (atoms are non-negative)
+                break
         if extra:
             facts = facts | frozenset(extra)
         if facts != a.facts:
